@@ -6,7 +6,7 @@ P(n, l, wf)    == [name |-> n, kind |-> "ptr",  len |-> l, wf |-> wf]
 DataQuick == { D("empty", 0), D("one", 1), D("blank_nl", 1), D("blank_mix", 8), D("blank1023", 1023), D("text200", 200), D("bin1023", 1023), D("bin1024", 1024), D("bin1025", 1025),
                D("bin5000", 5000), D("bin65515", 65515), D("bin65516", 65516), D("bin65517", 65517), D("bin131032", 131032) }
 PtrQuick  == { P("ptr_canon", 130, TRUE), P("ptr_crlf", 133, TRUE), P("ptr_pad1023", 1023, TRUE),
-               P("ptr_pad1024", 1024, TRUE), P("ptr_pad1025", 1025, TRUE),
+               P("ptr_pad1024", 1024, TRUE), P("ptr_pad1025", 1025, TRUE), P("ptr_ext_dash", 320, TRUE),
                P("ptr_plus_byte", 131, FALSE), P("ptr_plus_line", 140, FALSE), P("ptr_plus_64k", 66000, FALSE),
                P("ptr_then_data_1500", 1500, FALSE), P("ptr_upper_oid", 130, FALSE) }
 MergeQuick == { [name |-> "merged_text", kind |-> "merge", len |-> 9000, wf |-> FALSE] }
